@@ -24,6 +24,12 @@ impl std::fmt::Debug for P { fn fmt(&self, f: &mut std::fmt::Formatter<'_>) -> s
 pub struct Q<A, B>(pub u32, pub PhantomData<(A, B)>);
 impl<A, B> Mk for Q<A, B> { fn mk(p: u32) -> Self { Q(p, PhantomData) } }
 impl<A, B> std::fmt::Debug for Q<A, B> { fn fmt(&self, f: &mut std::fmt::Formatter<'_>) -> std::fmt::Result { write!(f, "{}", self.0) } }
+pub struct R<A, B, C>(pub u32, pub PhantomData<(A, B, C)>);
+impl<A, B, C> Mk for R<A, B, C> { fn mk(p: u32) -> Self { R(p, PhantomData) } }
+impl<A, B, C> std::fmt::Debug for R<A, B, C> { fn fmt(&self, f: &mut std::fmt::Formatter<'_>) -> std::fmt::Result { write!(f, "{}", self.0) } }
+pub struct R4<A, B, C, D>(pub u32, pub PhantomData<(A, B, C, D)>);
+impl<A, B, C, D> Mk for R4<A, B, C, D> { fn mk(p: u32) -> Self { R4(p, PhantomData) } }
+impl<A, B, C, D> std::fmt::Debug for R4<A, B, C, D> { fn fmt(&self, f: &mut std::fmt::Formatter<'_>) -> std::fmt::Result { write!(f, "{}", self.0) } }
 // payload types that implement no trait at all (C05)
 pub struct NoTraits;
 pub struct NoTraitsG<A>(pub PhantomData<A>);
@@ -177,6 +183,10 @@ def curated_behaviour():
         ('C', 'enum', [('A', ('tuple', [(True, N('A'))])), ('B', ('tuple', [(True, N('B'))]))]),
         ('A', 'struct', [(None, ('tuple', [(True, T('X')), (True, T('Y'))]))]),
         ('B', 'struct', [(None, ('tuple', [(True, T('X')), (True, T('Z'))]))])]))
+    # a production whose fields are ALL `_` (three of them), after a used field of its parent: x IS NOT x
+    specs.append(G('Pred', [('Ident', 'u32'), ('Is', 'u32'), ('Not', 'u32')], [
+        ('Pred', 'struct', [(None, ('named', [('col', T('Ident')), ('test', N('NullTest'))]))]),
+        ('NullTest', 'struct', [(None, ('tuple', [(False, T('Is')), (False, T('Not')), (False, T('Ident'))]))])]))
     # a state with a transition to itself that brings a new lookahead (prefix operator + postfix context): * * x ! !
     specs.append(G('Deref', [('Star', '()'), ('Bang', '()'), ('Ident', 'u32')], [
         ('Deref', 'struct', [(None, ('tuple', [(False, T('Star')), (True, N('Operand'))]))]),
